@@ -247,6 +247,25 @@ class LayoutRules:
             self.sink_obligations(cls, p, 'read', rules)
         if 'L9' in rules:
             self.check_shape_members(cls, paths)
+        if 'L7' in rules:
+            # L7 (skips): the only bytes a decoder steps over instead of storing are alignment padding - objectSize % 4 behind the object and the
+            # frozen inner pads.  A skip whose length depends on a field of the image (the unused tail of a fixed array, ...) drops bytes that a
+            # Vector-produced image may carry and that the encoder then cannot reproduce
+            rep = self.rep
+            seen_pads = {}
+            for p in paths:
+                S = p.menv.get(('objectSize',))
+                for it in p.items:
+                    if it.kind == 'pad' and not (isinstance(it.extra, dict) and it.extra.get('by_read')):
+                        seen_pads.setdefault((it.file, it.line), (it, S))
+            for (f_, l_), (it, S) in sorted(seen_pads.items(), key=lambda kv: (str(kv[0][0]), kv[0][1] or 0)):
+                rep.count('L7')
+                w = it.width
+                ok = w.is_const() or (S is not None and w == sym.op('%', S, Lin(4)))
+                rep.ob('L7', '%s|skip@%s' % (short(cls), short(it.fn)), ok, self.site(it),
+                       '%s: %s steps over %r bytes (alignment / fixed inner padding)' % (short(cls), short(it.fn), w) if ok else
+                       '%s: %s steps over %r bytes - a length taken from the image, not alignment padding: whatever the image holds there is not stored '
+                       'and cannot be re-encoded' % (short(cls), short(it.fn), w), nontrivial=True)
         if 'E6' in rules:
             # alignment padding is stepped over, not read: a read of padding that is cut off (or absent behind the last object of a file
             # written by another tool) sets eof|fail, and the good()-check behind the decode then discards an object / container whose own
